@@ -26,7 +26,7 @@ _SORT = {'int': lambda: z3.IntSort(), 'bool': lambda: z3.BoolSort(), 'str': lamb
 
 class YSeq(SList):
     """ghost sequence of yielded items"""
-    __slots__ = ('shape', 'funcs', 'objs', 'src_fn', 'pos_fn', '_last_src')
+    __slots__ = ('shape', 'funcs', 'objs', 'src_fn', 'pos_fn', '_last_src', '_src_loop', 'no_maps')
 
     def __init__(self, uid):
         SList.__init__(self, z3.IntVal(0), None, uid)
@@ -55,7 +55,7 @@ class YSeq(SList):
             return (k,)
         return ('obj',)
 
-    def append(self, interp, v, src_index=None):
+    def append(self, interp, v, src_index=None, loop=None):
         st = interp.st
         shape = self._shape_of(v)
         if self.shape is None:
@@ -74,16 +74,23 @@ class YSeq(SList):
                 st.assume(self._fn(path, sh[0])(n) == to_z3(x))
 
         store((), shape, v)
-        if src_index is not None:
+        if src_index is not None and not getattr(self, 'no_maps', False):
             key = z3.simplify(src_index).sexpr() if z3.is_expr(src_index) else str(src_index)
-            if getattr(self, '_last_src', None) == key:
-                # two yields for the same iteration of the symbolic loop: pos_of(src) would get two values and the
-                # path condition would become contradictory (a vacuous proof)
-                raise Unsupported('the generator yields more than once per iteration of a symbolic loop '
-                                  '(the ghost map pos_of is not a function)')
-            self._last_src = key
-            st.assume(self.src_fn(n) == src_index)
-            st.assume(self.pos_fn(src_index) == n)
+            seen = getattr(self, '_src_loop', None) or ()
+            loop = tuple(loop or ())
+            nested = any(a != loop and (a == loop[:len(a)] or loop == a[:len(loop)]) for a in seen if a and loop)
+            if getattr(self, '_last_src', None) == key or nested:
+                # two yields for the same iteration of the symbolic loop, or yields at two levels of nested loops
+                # (whose indices may coincide): pos_of(src) would get two values and the path condition would become
+                # contradictory (a vacuous proof).  From here on the ghost maps src / pos_of of this generator are
+                # not defined: nothing more is assumed of them and reading them is Unsupported (interp.getattr).
+                self.no_maps = True
+            else:
+                self._last_src = key
+                if loop not in seen:
+                    self._src_loop = seen + (loop,)
+                st.assume(self.src_fn(n) == src_index)
+                st.assume(self.pos_fn(src_index) == n)
         self.length = z3.simplify(n + 1)
 
     def _elem(self, interp, idx):
@@ -122,5 +129,6 @@ class CollectGen:
         # position of the innermost symbolic loop, if any (for the `src` / `pos_of` ghost maps)
         if interp.loop_index_stack:
             src = interp.loop_index_stack[-1]
-        self.yseq.append(interp, v, src)
+        loop = tuple(e['loop'] for e in interp.loop_frame_stack)       # the enclosing loops (arbitrary iterations)
+        self.yseq.append(interp, v, src, loop)
         return None
